@@ -71,7 +71,9 @@ def make_registry():
     cm.install(reg)
     for c in CONTRACTS:
         reg.add_contract(c)
-    reg.contracts[C_ITER_USE.func] = C_ITER_USE
+    reg.contracts[C_ITER_USE.func] = C_ITER_USE   # at call sites: the statement; the body of __iter__ is verified below (C09.C_ITER)
+    C09._REG_HOLDER["reg"] = reg
+    reg.inline.add(f"{PU}:SimpleBatcher.rng")
     for q in DP_PROPS + [f"{DP}:HyperparameterState.current_aberrations", f"{DP}:HyperparameterState.current_rotation_angle",
                          "quantem.core.utils.rng:RNGMixin.rng", f"{DP}:DirectPtychography._return_upsampled_qgrid"]:
         reg.inline.add(q)
@@ -101,6 +103,14 @@ def make_registry():
         return prev_len(interp, x)
 
     reg.models[len] = m_len
+
+    def kind_is(interp, a, b):
+        for x in (a, b):
+            if isinstance(x, cm.Stale):
+                x.touch("identity test")
+        return a is b
+
+    reg.kind_is = kind_is
     return reg
 
 
@@ -131,7 +141,7 @@ def scan_grid(m=1):
 
 
 def stale(msg):
-    return TT((), "T", "N", "M", why=[msg])
+    return cm.Stale(msg)
 
 
 def dp_obj(ctx):
@@ -256,9 +266,27 @@ def _dev(a, b):
     return float(np.abs(a - b).max()), float(max(np.abs(a).max(), np.abs(b).max(), 1e-30))
 
 
+def _guard(rt):
+    """An exception of the real code on a valid input is a violation (no result), not a checker fault."""
+    import functools
+
+    @functools.wraps(rt)
+    def w(inp):
+        try:
+            return rt(inp)
+        except Exception as e:  # noqa: BLE001
+            import traceback
+
+            tb = traceback.extract_tb(e.__traceback__)
+            where = next((f"{f.filename.rsplit('/', 1)[-1]}:{f.lineno}" for f in reversed(tb) if "/quantem/" in f.filename), "?")
+            return dict(violated=True, observed=f"raised {type(e).__name__}: {str(e)[:200]} at {where}", expected="a reconstruction (no exception on a valid input)")
+    return w
+
+
 RTOL = 2e-4  # float32 pipelines; A1: summation order differs between batchings
 
 
+@_guard
 def rt_batch(cfg):
     """Batch independence: for every max_batch_size 1..num_bf the corrected stack equals the unbatched one."""
     dp, stack, mask = _build(cfg)
@@ -282,6 +310,7 @@ def rt_batch(cfg):
                 expected="corrected_stack identical (rel 2e-4) for every max_batch_size 1..num_bf, shape (num_bf, u*Ny, u*Nx), repeat call identical")
 
 
+@_guard
 def rt_linear(cfg):
     """Linearity in the stack: recon(a X + b Y) = a recon(X) + b recon(Y) (same mask and hyper-parameters)."""
     import numpy as np
@@ -320,6 +349,7 @@ def aperture_weight(dp_cfg, gpts, pixels_mask):
     return float((A[pixels_mask] ** 2).sum()), (KXr, KYr, lam)
 
 
+@_guard
 def rt_recombine(cfg):
     """Single-pass kernels: W_A bf_A + W_B bf_B = W bf_full for complementary sub-masks A, B of the construction mask."""
     import numpy as np
@@ -361,6 +391,7 @@ def _grad_chi_over_2pi(abers, KX, KY, lam):
     return dx, dy
 
 
+@_guard
 def rt_parallax(cfg):
     """Analytic parallax (no CTF sign flipping): corrected_bf = sum_i translate(image_i - mean(image_i), grad chi(k_i)/2pi) / W_mask
     (zero aberration: no translation).  Upsampled grids: images are placed on the fine grid (zero interleaved) before translating.
@@ -403,6 +434,7 @@ def rt_parallax(cfg):
                 expected="sum of translated mean-subtracted virtual images / aperture weight (rel 1e-3)")
 
 
+@_guard
 def rt_bf_context(cfg):
     """_return_bf_context: vbf_index_mapping[r] is the stack row of detector pixel (bf_inds_i[r], bf_inds_j[r]); the pixels enumerate the sub-mask."""
     import numpy as np
@@ -478,6 +510,7 @@ def fam_kernel_name():
         yield dict(kernel=bad)
 
 
+@_guard
 def rt_aliases(cfg):
     """Every alias of a kernel gives exactly the result of the canonical name."""
     dp, stack, mask = _build(cfg)
@@ -636,7 +669,7 @@ def msg_goal(ok, msg):
 def journal_obligations(s):
     j = s.ctx.ghost.get("c04") or dict(untypable=[], writes=[], accs=[], prov=[])
     out = []
-    for cat, label in (("untypable", "every-statement-typable"), ("writes", "row-buffer-writes-are-rowwise-at-the-batch-rows"),
+    for cat, label in (("stale", "no-read-of-the-previous-result"), ("untypable", "every-statement-typable"), ("writes", "row-buffer-writes-are-rowwise-at-the-batch-rows"),
                        ("accs", "partial-sums-only-accumulate"), ("prov", "mask-relative-indices-meet-tensors-of-the-same-mask")):
         bad = [m for ok, m in j.get(cat, []) if not ok]
         out.append((f"typing:{label}", msg_goal(not bad, "; ".join(bad[:3]))))
@@ -1109,7 +1142,8 @@ C_RECONSTRUCT = Contract(
                                           f"{DP}:DirectPtychography._return_upsampled_qgrid", "quantem.core.utils.rng:RNGMixin.rng"],
     max_paths=6000)
 
-CONTRACTS = [C_KERNELNAME, C_PREPROCESS, C_BFCONTEXT, C_GAMMA, C_KERNEL, C_RECONSTRUCT]
+# SimpleBatcher.__iter__ / __len__: the contracts of contracts/C09.py, re-verified in this check because reconstruct relies on the partition
+CONTRACTS = [C_KERNELNAME, C_PREPROCESS, C_BFCONTEXT, C_GAMMA, C_KERNEL, C_RECONSTRUCT, C09.C_ITER, C09.C_LEN]
 
 
 # ------------------------------------------------------------------------------------------------
